@@ -65,3 +65,81 @@ def twice(f, shared, what='call'):
     if not same_result(r1, r2):
         raise HistoryDependence('%s repeated with the same argument objects returns a different result' % what)
     return r1
+
+
+PRESENTATIONS = ['array', 'list', 'series', 'readonly', 'strided']
+
+def present(x, mode):
+    """the same sample values handed over as another legal container / memory layout"""
+    import pandas as pd
+    if mode in (None, 'array'): return x
+    if mode == 'list': return [float(v) for v in x] if x.dtype.kind == 'f' else x.tolist()
+    if mode == 'series': return pd.Series(x)
+    if mode == 'readonly':
+        y = x.copy(); y.flags.writeable = False; return y
+    if mode == 'strided':
+        buf = np.empty(2 * len(x), dtype=x.dtype); buf[::2] = x; buf[1::2] = 12345; return buf[::2]
+    raise ValueError(mode)
+
+def pick_presentation(rng, p=0.3):
+    return str(rng.choice(PRESENTATIONS[1:])) if rng.random() < p else 'array'
+
+def np_scalars(d):
+    """option values as numpy scalars (np.int64 / np.float64) instead of python numbers; nested dicts included"""
+    if d is None: return None
+    out = {}
+    for k, v in d.items():
+        if isinstance(v, dict): out[k] = np_scalars(v)
+        elif isinstance(v, bool): out[k] = v
+        elif isinstance(v, int): out[k] = np.int64(v)
+        elif isinstance(v, float): out[k] = np.float64(v)
+        else: out[k] = v
+    return out
+
+
+def reuse_buffer(fn, sig):
+    """`fn(array)` on a buffer that held OTHER samples when it was analysed a moment ago and has been refilled in place
+    (an acquisition buffer / an epoch loop): the result must be that of the current contents."""
+    sig = np.asarray(sig)
+    buf = np.ascontiguousarray(sig[::-1]).copy()
+    try:
+        quiet(fn, buf)
+    except Exception:
+        pass
+    buf[:] = sig
+    return fn(buf)
+
+def object_route(sig, fs, f_range, center, method, bk, th, fek, return_samples=True, shorthand=False):
+    """the same analysis through a Bycycle object WITH A HISTORY: constructed with other settings (other centring, boundary 0, a
+    larger min_n_cycles), fitted on the same array object, then every setting is edited / rebound to the requested one and the
+    object is fitted again. With `shorthand`, the thresholds are given to the constructor under their documented short names."""
+    import copy as _copy
+    from bycycle import Bycycle
+    sig = np.asarray(sig)
+    th0 = None
+    if th is not None:
+        th0 = {((k[:-len('_threshold')] if shorthand and k.endswith('_threshold') else k)): v for k, v in th.items()}
+        if 'min_n_cycles' in th0: th0['min_n_cycles'] = th0['min_n_cycles'] + 5
+    bm = quiet(Bycycle, center_extrema=('trough' if center == 'peak' else 'peak'), burst_method=method,
+               burst_kwargs=(None if bk is None else _copy.deepcopy(bk)), thresholds=th0,
+               find_extrema_kwargs={'filter_kwargs': {'n_cycles': 3}, 'boundary': 0}, return_samples=not return_samples)
+    try:
+        quiet(bm.fit, sig, fs, f_range)
+    except Exception:
+        pass
+    bm.center_extrema = center
+    bm.return_samples = return_samples
+    if fek is not None: bm.find_extrema_kwargs = fek
+    else: bm.find_extrema_kwargs = {'filter_kwargs': {'n_cycles': 3}}
+    if th is not None and 'min_n_cycles' in th: bm.thresholds['min_n_cycles'] = th['min_n_cycles']       # in-place edit
+    quiet(bm.fit, sig, fs, f_range)
+    return bm.df_features
+
+
+def raised_in_kernel(e):
+    """the exception left bycycle's own code and was raised inside neurodsp (filter validation, dual-threshold detector): kernel-refused"""
+    tb = e.__traceback__; files = []
+    while tb is not None:
+        files.append(tb.tb_frame.f_code.co_filename); tb = tb.tb_next
+    last_own = max([i for i, f in enumerate(files) if '/bycycle/' in f] or [-1])
+    return any('/neurodsp/' in f for f in files[last_own + 1:])
